@@ -874,6 +874,10 @@ func funcCandidates(v ssa.Value) []*ssa.Function {
 			if x.Addr != ssa.Value(a) {
 				return nil
 			}
+			if k, isConst := x.Val.(*ssa.Const); isConst && k.Value == nil {
+				// an initial nil: calling it is excluded by the nilfunc obligation
+				continue
+			}
 			f, ok := x.Val.(*ssa.Function)
 			if !ok {
 				return nil
